@@ -43,9 +43,15 @@ class Job:
 
 def harness_path(j): return os.path.join(VERIF, 'harness', j.harness + '.cpp')
 
+def std_flags(j):
+    # clang-14 miscompiles `if consteval` (libstdc++ 12 uses it for std::is_constant_evaluated() in C++23 mode: observed to be
+    # true at run time inside constexpr member functions, so every container lives on the heap). Make libstdc++ fall back to
+    # __builtin_is_constant_evaluated(), which is what a conforming compiler's `if consteval` amounts to.
+    return ['-std=' + j.std] + (['-U__cpp_if_consteval', '-Wno-builtin-macro-redefined'] if j.std in ('c++2b', 'c++23') else [])
+
 def build_ir(j, wd):
     ll = os.path.join(wd, 'h.ll')
-    cmd = ['clang++-14', '-std=' + j.std] + CLANG_IR_FLAGS + j.extra_clang + ['-I' + HDR_DIR] + j.defflags() + \
+    cmd = ['clang++-14'] + std_flags(j) + CLANG_IR_FLAGS + j.extra_clang + ['-I' + HDR_DIR] + j.defflags() + \
           ['-S', '-emit-llvm', harness_path(j), '-o', ll]
     r = sh(cmd)
     if r.returncode != 0:
@@ -55,7 +61,7 @@ def build_ir(j, wd):
 def gch_functions(j, wd):
     """names of header functions whose code is in the encoding (incl. inlined ones), from debug info"""
     ll = os.path.join(wd, 'hdbg.ll')
-    cmd = ['clang++-14', '-std=' + j.std] + CLANG_IR_FLAGS + j.extra_clang + ['-gmlt', '-I' + HDR_DIR] + j.defflags() + \
+    cmd = ['clang++-14'] + std_flags(j) + CLANG_IR_FLAGS + j.extra_clang + ['-gmlt', '-I' + HDR_DIR] + j.defflags() + \
           ['-S', '-emit-llvm', harness_path(j), '-o', ll]
     r = sh(cmd)
     if r.returncode != 0: return []
@@ -171,7 +177,7 @@ def build_native_cxx(j, wd, compiler='clang++-14', sanitize=True, tag='c'):
     san = ['-fsanitize=address,undefined', '-fno-sanitize-recover=undefined'] if sanitize else []
     cc = 'clang-14' if compiler.startswith('clang') else 'gcc'
     o1 = os.path.join(wd, 'h_%s.o' % tag); o2 = os.path.join(wd, 'rt_%s.o' % tag)
-    r = sh([compiler, '-std=' + j.std, '-O1', '-g', '-DNDEBUG', '-fno-access-control' if compiler.startswith('clang') else '-fno-access-control',
+    r = sh([compiler] + std_flags(j) + ['-O1', '-g', '-DNDEBUG', '-fno-access-control' if compiler.startswith('clang') else '-fno-access-control',
             '-I' + HDR_DIR] + j.extra_clang + san + j.defflags() + ['-c', harness_path(j), '-o', o1])
     if r.returncode != 0: return None, r.stderr[-2000:]
     r = sh([cc, '-O1', '-g', '-DVF_NATIVE', '-DVF_NATIVE_CXX'] + san + ['-c', RT_C, '-o', o2])
@@ -201,6 +207,8 @@ def run_native(exe, inputs, timeout=20):
     if r is None:
         return {'rc': -2, 'hash': None, 'fails': ['cannot execute native binary'], 'assume_false': False, 'san': '', 'witness': []}
     fails = re.findall(r'^ASSERT-FAIL: (.*)$', r.stdout, re.M)
+    if r.returncode == -6 and 'terminate called' in r.stderr: fails.append('C18: std::terminate reached')
+    elif r.returncode == -6 and not fails: fails.append('abort() called')
     m = re.search(r'^HASH ([0-9a-f]+)$', r.stdout, re.M)
     san = ''
     if 'AddressSanitizer' in r.stderr or 'runtime error' in r.stderr:
